@@ -41,6 +41,10 @@ CONDS = {
     "introspect_resolver is not None": "introspect",
     "enable_sticky": "sticky",
     "sticky_echo_headers": "stickyEcho",
+    # not a capability setting: `proxy_hint` is non-empty when authentication depends on proxy-injected headers
+    # (proxy_auth_headers / an authenticator declaring them / proof required).  Recognised so that the model follows a source
+    # that guards a header with it — the exactness theorem then fails instead of the extraction.
+    "proxy_hint": "proxyHint",
 }
 VALS = {
     "str(max_request_bytes)": ".decimal .maxRequestBytes",
@@ -319,6 +323,7 @@ inductive Cond where
   | introspect                      -- `introspect_resolver is not None`
   | sticky                          -- `enable_sticky`
   | stickyEcho                      -- `sticky_echo_headers` (a non-empty mapping)
+  | proxyHint                       -- `proxy_hint` (auth depends on proxy-injected headers; has no capability header)
 deriving Repr, DecidableEq
 
 /-- value expressions -/
